@@ -332,6 +332,123 @@ def body_ctor_struct(inp, H, W):
     return A, E
 
 
+def body_ctor_graph(inp, H, W):
+    """datasets, simulator, mappers, valued mappers, inversions: construction leaves every object passed in unchanged"""
+    import autoarray as aa
+    from autoarray.inversion.inversion import factory
+    _install_linalg_stub()
+    inner = np.array(inp["mask"], dtype=bool).reshape(H, W)
+    mask_in = np.ones((H + 2, W + 2), dtype=bool)       # one masked ring around the forked mask: room for the 3x3 PSF
+    mask_in[1:-1, 1:-1] = inner
+    H, W = H + 2, W + 2
+    n = len(_pos(mask_in))
+    dv, nv, pv = np.asarray(inp["data"]).reshape(H, W), np.asarray(inp["noise"]).reshape(H, W), np.asarray(inp["psf"]).reshape(3, 3)
+    vals = np.asarray(inp["vals"]).reshape(-1)[:9]
+    adapt = np.asarray(inp["adapt"]).reshape(H, W)
+    use_w_tilde = bool(inp["use_w_tilde"])
+    A, E = {}, {}
+    m = aa.Mask2D(mask=mask_in.copy(), pixel_scales=(1.0, 1.0))
+    mask_before = _snap(m)
+    data = aa.Array2D(values=dv.copy(), mask=m)
+    noise = aa.Array2D(values=nv.copy(), mask=m)
+    psf = aa.Kernel2D.no_mask(values=pv.copy(), pixel_scales=(1.0, 1.0))
+    ncm = np.array(np.diag(nv.reshape(-1)[:n]), copy=True)
+    ncm_before = ncm.copy()
+    before = {"data": _snap(data), "noise": _snap(noise), "psf": _snap(psf)}
+
+    def unchanged(tag):
+        A[tag] = [_snap(data), _snap(noise), _snap(psf), _snap(m), ncm]
+        E[tag] = [before["data"], before["noise"], before["psf"], mask_before, ncm_before]
+
+    ds = _mk(aa.Imaging, data=data, noise_map=noise, psf=psf, noise_covariance_matrix=ncm)
+    unchanged("Imaging(data, noise_map, psf, noise_covariance_matrix): inputs")
+    _mk(aa.Imaging, data=data, noise_map=noise, psf=psf, use_normalized_psf=False, check_noise_map=False)
+    unchanged("Imaging(use_normalized_psf=False): inputs")
+    _mk(aa.SimulatorImaging, exposure_time=2.0, psf=psf)
+    unchanged("SimulatorImaging(psf): inputs")
+    _mk(lambda: psf.normalized)
+    unchanged("Kernel2D.normalized: source kernel")
+    hx.attempt(lambda: ds.apply_noise_scaling(mask=m, noise_value=inp["vals"][0]))
+    unchanged("Imaging.apply_noise_scaling: inputs")
+    # mapper graph (concrete geometry from the mask; adapt data symbolic)
+    grid = aa.Grid2D.from_mask(mask=m)
+    mesh_grid = aa.Mesh2DRectangular.overlay_grid(shape_native=(3, 3), grid=grid)
+    adapt_data = aa.Array2D(values=adapt.copy(), mask=m)
+    g_before, mesh_before, adapt_before = _snap(grid), _snap(mesh_grid), _snap(adapt_data)
+    mg = _mk(aa.MapperGrids, mask=m, source_plane_data_grid=grid, source_plane_mesh_grid=mesh_grid, adapt_data=adapt_data)
+    reg = aa.reg.Constant(coefficient=2.0)
+    mapper = _mk(aa.Mapper, mapper_grids=mg, over_sampler=aa.OverSamplerUniform(mask=m, sub_size=1), regularization=reg)
+    A["MapperGrids / Mapper: inputs"] = [_snap(grid), _snap(mesh_grid), _snap(adapt_data), _snap(m)]
+    E["MapperGrids / Mapper: inputs"] = [g_before, mesh_before, adapt_before, mask_before]
+    mm_before = _snap(mapper.mapping_matrix)
+    src_vals, pix_mask = np.array(vals, copy=True), np.array([True, False, False, False, True, False, False, False, False])
+    _mk(aa.MapperValued, mapper=mapper, values=src_vals, mesh_pixel_mask=pix_mask)
+    A["MapperValued(mapper, values, mesh_pixel_mask): inputs"] = [src_vals, pix_mask, _snap(mapper.mapping_matrix)]
+    E["MapperValued(mapper, values, mesh_pixel_mask): inputs"] = [vals, np.array([True, False, False, False, True, False, False, False, False]), mm_before]
+    # inversion factories: dataset, linear objects and settings passed in
+    def settings_state(st):
+        return [bool(st.use_w_tilde), bool(st.use_linear_operators), bool(st.force_edge_pixels_to_zeros), bool(st.use_w_tilde_numpy)]
+
+    st = aa.SettingsInversion(use_w_tilde=use_w_tilde, use_positive_only_solver=False)
+    st_before = settings_state(st)
+    lol = [mapper]
+    # (the w-tilde route computes the noise/PSF preload at construction: concrete noise and PSF, symbolic data)
+    noise_c = aa.Array2D(values=1.0 + 0.5 * (np.arange(H * W).reshape(H, W) % 3), mask=m)
+    psf_c = aa.Kernel2D.no_mask(values=[[0.0, 0.25, 0.0], [0.25, 1.0, 0.25], [0.0, 0.25, 0.0]], pixel_scales=(1.0, 1.0))
+    nc_before, pc_before = _snap(noise_c), _snap(psf_c)
+    ds = _mk(aa.Imaging, data=data, noise_map=noise_c, psf=psf_c)
+    inv = _mk(aa.Inversion, dataset=ds, linear_obj_list=lol, settings=st)
+    hx.attempt(lambda: inv.reconstruction)
+    A["Inversion(imaging, [mapper], settings) + reconstruction: dataset"] = [_snap(data), _snap(noise_c), _snap(psf_c), _snap(m),
+                                                                            _snap(ds.data), _snap(ds.noise_map), _snap(ds.psf)]
+    E["Inversion(imaging, [mapper], settings) + reconstruction: dataset"] = [before["data"], nc_before, pc_before, mask_before,
+                                                                            before["data"], nc_before, _snap(psf_c.normalized)]
+    A["Inversion(imaging, [mapper], settings): settings, linear_obj_list, mapper"] = [settings_state(st), len(lol), lol[0] is mapper, _snap(mapper.mapping_matrix)]
+    E["Inversion(imaging, [mapper], settings): settings, linear_obj_list, mapper"] = [st_before, 1, True, mm_before]
+    # interferometer route of the same factory (visibilities from the symbolic payload)
+    dflt = factory.inversion_from.__defaults__[0]
+    dflt.use_w_tilde = True                      # interpreter-fresh state of the shared default (harness hygiene)
+    k_before = type(_mk(aa.Inversion, dataset=ds, linear_obj_list=lol)).__name__
+    vis = aa.Visibilities(visibilities=_complex_array(vals[:3], vals[3:6]))
+    vnm = aa.VisibilitiesNoiseMap(visibilities=np.array([1.0 + 1.0j, 2.0 + 1.0j, 1.0 + 2.0j]))
+    vis_before = _val(vis)
+    dsi = aa.DatasetInterface(data=vis, noise_map=vnm, transformer=None)
+    st2 = aa.SettingsInversion(use_w_tilde=use_w_tilde, use_positive_only_solver=False)
+    _mk(aa.Inversion, dataset=dsi, linear_obj_list=lol, settings=st2)
+    A["Inversion(interferometer dataset, [mapper], settings): settings"] = settings_state(st2)
+    E["Inversion(interferometer dataset, [mapper], settings): settings"] = st_before
+    A["Inversion(interferometer dataset, [mapper], settings): visibilities"] = _val(vis)
+    E["Inversion(interferometer dataset, [mapper], settings): visibilities"] = vis_before
+    _mk(aa.Inversion, dataset=dsi, linear_obj_list=lol)
+    A["Inversion(imaging) with default settings, after an interferometer inversion with default settings: same formalism"] = \
+        type(_mk(aa.Inversion, dataset=ds, linear_obj_list=lol)).__name__
+    E["Inversion(imaging) with default settings, after an interferometer inversion with default settings: same formalism"] = k_before
+    dflt.use_w_tilde = True
+    return A, E
+
+
+def case_ctor_graph(ctx, H, W):
+    mask = _sym_mask(ctx, (H, W), min_unmasked=2)
+    uw = ctx.fork_bool(V.boolean("use_w_tilde"))
+    ctx.set_case(mask=mask.tolist(), use_w_tilde=bool(uw))
+    psf = V.real_array("p", (3, 3))
+    ctx.assume(z3.Sum([e.t for e in psf.reshape(-1)]) >= z3.RealVal("1/2"))
+    inputs = {"mask": mask, "use_w_tilde": bool(uw), "psf": psf,
+              "vals": V.real_array("s", (9,)), "adapt": V.real_array("a", (H, W))}
+    inputs.update({"data": V.real_array("d", (H + 2, W + 2)), "adapt": V.real_array("a", (H + 2, W + 2))})
+    noise = V.real_array("n", (H + 2, W + 2))
+    for e in noise.reshape(-1):
+        ctx.assume(e.t >= z3.RealVal("1/2"))
+    inputs["noise"] = noise
+    known = {}
+    if "interferometer-factory-mutates-settings" in _known_ids():
+        if uw:
+            known["Inversion(interferometer dataset, [mapper], settings): settings"] = {"interferometer-factory-mutates-settings": z3.BoolVal(True)}
+        known["Inversion(imaging) with default settings, after an interferometer inversion with default settings: same formalism"] = \
+            {"interferometer-factory-mutates-settings": z3.BoolVal(True)}
+    hx.run_body(ctx, body_ctor_graph, inputs, {"H": H, "W": W}, validate_every=64, known=known)
+
+
 def _sym_mask(ctx, shape, name="m", min_unmasked=1):
     m = V.bool_array(name, shape)
     bits = [z3.If(b.t, 0, 1) for b in m.reshape(-1)]
@@ -475,7 +592,7 @@ KNOWN_REGIONS = {}
 
 
 # ---------------------------------------------------------------------------------------------------- level: visibilities
-def level_vis(inp, n):
+def level_vis(inp, n, full=False):
     import autoarray as aa
     re, im = np.asarray(inp["re"]).reshape(-1)[:n], np.asarray(inp["im"]).reshape(-1)[:n]
     c, wr, wi = inp["c"], inp["w"][0], inp["w"][1]
@@ -489,7 +606,7 @@ def level_vis(inp, n):
 
     ops = [("noop", "read", lambda G: None)]
     for who in ("x", "d"):
-        for attr in ("amplitudes", "phases", "in_array", "in_grid", "scaled_maxima", "scaled_minima", "slim", "native", "ordered_1d"):
+        for attr in ("amplitudes", "phases", "in_array", "scaled_maxima", "ordered_1d") + (("in_grid", "scaled_minima", "slim", "native") if full else ()):
             ops.append(("%s.%s" % (who, attr), "read", rd(attr, who)))
     w = _complex_array(np.array([wr], dtype=object), np.array([wi], dtype=object))[0] if V.is_sym(wr) or V.is_sym(wi) else complex(wr, wi)
 
@@ -499,16 +616,17 @@ def level_vis(inp, n):
         return g
 
     ops += [("d=x*c", "derive", setd(lambda G: G["x"] * c)),
-            ("d=c*x", "derive", setd(lambda G: c * G["x"])),
             ("d=x+x", "derive", setd(lambda G: G["x"] + G["x"])),
             ("d=x-w", "derive", setd(lambda G: G["x"] - w)),
             ("d=-x", "derive", setd(lambda G: -G["x"])),
-            ("d=x/c", "derive", setd(lambda G: G["x"] / c)),
             ("d=x[0:%d]" % (n - 1), "derive", setd(lambda G: G["x"][0:n - 1])),
-            ("d=x[1:]", "derive", setd(lambda G: G["x"][1:])),
             ("d=x.copy()", "derive", setd(lambda G: G["x"].copy())),
-            ("d=d*c", "derive", setd(lambda G: G["d"] * c)),
-            ("d=d.copy()", "derive", setd(lambda G: G["d"].copy()))]
+            ("d=d*c", "derive", setd(lambda G: G["d"] * c))]
+    if full:
+        ops += [("d=c*x", "derive", setd(lambda G: c * G["x"])),
+                ("d=x/c", "derive", setd(lambda G: G["x"] / c)),
+                ("d=x[1:]", "derive", setd(lambda G: G["x"][1:])),
+                ("d=d.copy()", "derive", setd(lambda G: G["d"].copy()))]
 
     def own(G, who):
         parts = _split_complex(G[who])
@@ -559,11 +677,14 @@ KNOWN_REGIONS["vis"] = {
 }
 
 
-def case_hist_vis(ctx, n, k, op0=None):
+def case_hist_vis(ctx, n, k, op0=None, full=False):
     c = V.real("c")
     inputs = {"re": V.real_array("re", (n,)), "im": V.real_array("im", (n,)), "c": c, "w": [V.real("wr"), V.real("wi")]}
     ctx.assume(c.t != 0)
-    _hist_case(ctx, "vis", inputs, {"n": n}, k, op0)
+    for e in inputs["re"].reshape(-1):
+        # phases of exactly-zero visibilities are the one place where the angle model (0,0) and numpy (angle 0) differ
+        ctx.assume(z3.And(e.t != 0, e.t != inputs["w"][0].t))
+    _hist_case(ctx, "vis", inputs, {"n": n, "full": full}, k, op0)
 
 
 # ---------------------------------------------------------------------------------------------------- level: Array2D / Kernel2D
@@ -849,6 +970,8 @@ def level_imaging(inp, mask_id, full=False, snr=False):
                 ("%s.grids.uniform" % who, lambda G, who=who: _structure(_get(G, who).grids.uniform)),
                 ("%s.grids.blurring" % who, lambda G, who=who: _structure(_get(G, who).grids.blurring)),
                 ("%s.convolver" % who, lambda G, who=who: conv(_get(G, who)))]
+        if snr:
+            obs += [("%s.signal_to_noise_map" % who, lambda G, who=who: _structure(_get(G, who).signal_to_noise_map))]
     return build, ops, obs
 
 
@@ -1275,16 +1398,81 @@ def case_rng(ctx, H, W):
     hx.run_body(ctx, body_rng, inputs, {"H": H, "W": W}, validate_every=1, tol=None)
 
 
-BODIES = {"case_ctor_struct": body_ctor_struct, "case_hist_vis": body_hist, "case_hist_array": body_hist, "case_hist_grid": body_hist, "case_hist_mask": body_hist, "case_hist_imaging": body_hist, "case_hist_inversion": body_hist, "case_rng": body_rng}
+BODIES = {"case_ctor_struct": body_ctor_struct, "case_ctor_graph": body_ctor_graph, "case_hist_vis": body_hist, "case_hist_array": body_hist, "case_hist_grid": body_hist, "case_hist_mask": body_hist, "case_hist_imaging": body_hist, "case_hist_inversion": body_hist, "case_rng": body_rng}
+
+
+def _dummy_inputs(level, kw):
+    """concrete inputs of the right shapes (only used to count the operations of a level)"""
+    if level == "vis":
+        return {"re": np.ones(kw["n"]), "im": np.ones(kw["n"]), "c": 2.0, "w": [1.0, 1.0]}
+    if level == "mask":
+        return {"mask": np.zeros((kw["H"], kw["W"]), dtype=bool), "ps": 1.0}
+    H, W = _mask_arr(kw["mask_id"]).shape
+    if level == "array":
+        return {"v": np.ones((H, W)), "c": 2.0}
+    if level == "grid":
+        return {"g": np.ones((H, W, 2)), "gs": np.ones((H * W, 2)), "c": 2.0, "off": [1.0, 1.0]}
+    if level == "imaging":
+        return {"data": np.ones((H, W)), "noise": np.ones((H, W)), "psf": np.ones((3, 3)), "origin": [0.0, 0.0], "c": 2.0}
+    if level == "inversion":
+        return {"data": np.ones((H, W)), "vals": np.ones(9)}
+    raise KeyError(level)
+
+
+def _hist_cases(level, kw, k, extra=None):
+    """one task per first operation (the remaining k-1 operation indices and the observation index are symbolic)"""
+    lk = {a: b for a, b in kw.items() if a not in ("k", "family")}
+    _, ops, _ = LEVELS[level](_dummy_inputs(level, lk), **lk)
+    out = []
+    for i in range(len(ops)):
+        d = dict(kw)
+        d.update({"k": k, "op0": i})
+        out.append(("case_hist_" + level, d) + ((extra,) if extra else ()))
+    return out
 
 
 def cases(tier):
     out = []
-    cap = 9 if tier == "quick" else 9
+    q = tier == "quick"
+    # Part C
+    out.append(("case_rng", {"H": 2, "W": 3}))
+    if not q:
+        out.append(("case_rng", {"H": 3, "W": 3}))
+    # Part A
     for H in range(1, 4):
         for W in range(1, 4):
-            if H * W <= cap:
-                out.append(("case_ctor_struct", {"H": H, "W": W}, {"split": 2 if H * W >= 9 else 0}))
+            out.append(("case_ctor_struct", {"H": H, "W": W}, {"split": 3 if H * W >= 9 else 0}))
+            if H * W >= 2 and (H * W <= 6 or not q):
+                out.append(("case_ctor_graph", {"H": H, "W": W}, {"split": 4 if H * W >= 9 else (2 if H * W >= 6 else 0)}))
+    # Part B
+    if q:
+        out += _hist_cases("vis", {"n": 2}, 2)
+        for cls, sn, mid in (("Array2D", 0, "3x3_plus"), ("Array2D", 1, "3x3_plus"), ("Kernel2D", 0, "3x3_plus"), ("Kernel2D", 1, "3x3_all")):
+            out += _hist_cases("array", {"mask_id": mid, "cls": cls, "sn": sn}, 2)
+        for sn in (0, 1):
+            out += _hist_cases("grid", {"mask_id": "2x2_diag", "sn": sn}, 2)
+        out += _hist_cases("mask", {"H": 3, "W": 3, "family": "sym4"}, 2)
+        out += _hist_cases("imaging", {"mask_id": "4x4_inner"}, 2)
+        out += _hist_cases("inversion", {"mask_id": "5x5_inner", "w_tilde": 0}, 2)
+        out += _hist_cases("inversion", {"mask_id": "5x5_inner_L", "w_tilde": 1}, 2)
+    else:
+        out += _hist_cases("vis", {"n": 3, "full": True}, 2)
+        out += _hist_cases("vis", {"n": 2}, 3)
+        for cls, sn, mid in (("Array2D", 0, "3x3_plus"), ("Array2D", 1, "3x3_L"), ("Array2D", 0, "4x3_mixed"), ("Kernel2D", 0, "3x3_plus"),
+                             ("Kernel2D", 1, "3x3_all"), ("Kernel2D", 0, "3x3_all")):
+            out += _hist_cases("array", {"mask_id": mid, "cls": cls, "sn": sn, "full": True}, 2)
+        out += _hist_cases("array", {"mask_id": "3x3_plus", "cls": "Kernel2D", "sn": 0}, 3)
+        for sn, mid in ((0, "2x2_diag"), (1, "2x2_diag"), (0, "2x3_diag")):
+            out += _hist_cases("grid", {"mask_id": mid, "sn": sn, "full": True}, 2)
+        out += _hist_cases("mask", {"H": 3, "W": 3, "family": "sym4", "full": True}, 2)
+        out += _hist_cases("mask", {"H": 4, "W": 4, "family": "sym4"}, 2)
+        out += _hist_cases("mask", {"H": 3, "W": 3, "family": "all"}, 1)
+        out += _hist_cases("imaging", {"mask_id": "4x4_inner", "full": True}, 2)
+        out += _hist_cases("imaging", {"mask_id": "5x5_inner_L"}, 2)
+        for wt, mid in ((0, "5x5_inner"), (1, "5x5_inner"), (0, "5x5_inner_L"), (1, "5x5_inner_L")):
+            out += _hist_cases("inversion", {"mask_id": mid, "w_tilde": wt, "full": True}, 2)
+    out.append(("case_hist_imaging", {"mask_id": "4x4_inner", "k": 1, "snr": True, "op0": "x.signal_to_noise_map"}))
+    out.append(("case_hist_imaging", {"mask_id": "4x4_inner", "k": 2, "snr": True, "op0": "d=x.apply_mask(m2)"}))
     return out
 
 
